@@ -38,6 +38,9 @@ class Controller:
         self.oplog = {}        # tid -> [(label, outcome)]
         self.workers = {}      # thread ident -> tid
         self.free_run = False
+        self.open_conns = set()    # tids that have an open connection
+        self.removed_in_use = []   # [(tid that removed the file, sorted tids with an open connection)]
+        self.timeouts = {}         # tid -> busy timeout for its connections (default BUSY_TIMEOUT)
 
     # ---- worker side ---------------------------------------------------------
     def tid(self):
@@ -78,6 +81,7 @@ class Controller:
                 gc.collect()
             with self.cv:
                 self.done[tid] = r
+                self.open_conns.discard(tid)
                 self.cv.notify_all()
         th = threading.Thread(target=body, daemon=True)
         th.start()
@@ -189,7 +193,10 @@ class _Conn:
         return self._gated("commit", self._conn.commit)
 
     def close(self):
-        return self._gated("close", self._conn.close)
+        def do():
+            self._conn.close()
+            self._ctl.open_conns.discard(self._ctl.tid())
+        return self._gated("close", do)
 
     def execute(self, sql, *a):
         return self._gated(label_of(sql), lambda: self._conn.execute(sql, *a))
@@ -208,10 +215,11 @@ class SqliteProxy:
     def connect(self, path, *a, **kw):
         if self._ctl.tid() is None:
             return real_sqlite3.connect(path, *a, **kw)
-        kw.setdefault("timeout", self._timeout)
+        kw.setdefault("timeout", self._ctl.timeouts.get(self._ctl.tid(), self._timeout))
         self._ctl.gate("connect")
         try:
             c = real_sqlite3.connect(path, *a, **kw)
+            self._ctl.open_conns.add(self._ctl.tid())
             self._ctl.op_finished("ok")
         except BaseException as e:
             self._ctl.op_finished("raised:" + type(e).__name__)
@@ -229,6 +237,9 @@ class OsProxy:
     def remove(self, p):
         self._ctl.gate("os.remove")
         try:
+            others = sorted(self._ctl.open_conns - {self._ctl.tid()})
+            if others:
+                self._ctl.removed_in_use.append((self._ctl.tid(), others))
             r = self._os.remove(p)
             self._ctl.op_finished("ok")
             return r
